@@ -61,5 +61,6 @@ def main(tier):
     chk.run("R-ARRAYSTORAGE", C.arraystorage, cx.repo, floor=12)
     chk.run("R-CONSTWRITE", B.constwrite, cx.repo, floor=5)
     chk.run("R-CXX11CONSTEXPR", C.cxx11constexpr, cx.repo, floor=40)
+    chk.run("R-QUALNS", B.qualns, cx.repo, floor=2)
     chk.run("R-FIELDREADER", B.fieldreader, cx.repo, floor=6)
     return chk.finish()
